@@ -351,7 +351,9 @@ class MemTransport(asyncio.Transport):
             return
         if self.closing or self.closed:
             return
-        data = bytes(data)
+        # as asyncio's selector transport does since Python 3.12: what is handed over as a bytearray or memoryview and
+        # cannot leave at once is KEPT, not copied - whoever reuses that buffer before it has left changes what is sent
+        data = memoryview(data) if isinstance(data, (bytearray, memoryview)) else bytes(data)
         self.bytes_written += len(data)
         if self.peer is None or self.peer.closed:
             # like a socket whose peer went away: the data is dropped and the RST comes back
@@ -486,6 +488,7 @@ class MemTransport(asyncio.Transport):
             if not keep and not p.closing:
                 p.close()
         else:
+            seg = bytes(seg)
             self.outbox_size -= len(seg)
             self.bytes_delivered += len(seg)
             self.net.event("deliver", p, len(seg))
